@@ -794,7 +794,11 @@ fn fragment(inst: &Inst) -> &'static str {
     let rc = inst.ready_classes();
     if rc <= 1 {
         "F1"
-    } else if inst.workers.len() == 1 && rc <= 2 && inst.classes.iter().all(|c| c.weight == 10_000) {
+    } else if inst.workers.len() == 1
+        && rc <= 2
+        && inst.classes.iter().all(|c| c.weight == 10_000)
+        && inst.queues.iter().flatten().map(|l| l.0).collect::<BTreeSet<_>>().len() <= 32
+    {
         "F2"
     } else {
         "out"
